@@ -1,13 +1,13 @@
 SPECIFICATION Spec
 CONSTANTS
-  N = 3
-  MaxSteps = 2
-  K = 0
+  N = 5
+  MaxSteps = 5
+  K = 2
   M = 0
   Roots = 3
-  NatSteps = 3
-  Kinds = {"pa", "qo", "qd", "qa"}
-  NatKinds = {"sd", "qd"}
+  NatSteps = 5
+  Kinds = {"pa", "rd", "ra", "aw", "sd", "sa", "sc", "bd", "ba", "pk", "up", "qo", "qd", "qa"}
+  NatKinds = {"sd", "rd", "up", "qd"}
   Prune = TRUE
 INVARIANTS TypeOK CoroMode RunToSuspension QueueFIFO ObservedOrder ResumeOncePerReadying NoReentrancy RoundRobin FullDrain AllDoneAtEnd
 PROPERTY FIFOStep
